@@ -262,7 +262,11 @@ pub fn build_package(opts: PackageInputs) -> Result<CoreUnit, CompilationError> 
 pub fn read_core(path: &Path) -> Result<CoreUnit, CompilationError> {
     let json = fs::read_to_string(path)
         .map_err(|err| compile_error(format!("failed to read {}: {}", path.display(), err)))?;
-    let unit: CoreUnit = serde_json::from_str(&json)
+    // the core IR nests as deeply as the program (one level per statement of a block): no fixed recursion limit
+    let mut deserializer = serde_json::Deserializer::from_str(&json);
+    deserializer.disable_recursion_limit();
+    let unit = <CoreUnit as serde::Deserialize>::deserialize(&mut deserializer)
+        .and_then(|unit| deserializer.end().map(|()| unit))
         .map_err(|err| compile_error(format!("failed to parse {}: {}", path.display(), err)))?;
     if !unit.validate() {
         return Err(compile_error(format!(
